@@ -21,7 +21,7 @@ CLAIMED={
  'C20':("CFG cuts for the graceful-end condition, reset-on-exit, TERMINATE test before recording code, pairing in the reset loop, who-may-clear TERMINATE, flag-byte write classes",
         "Decides the structural clauses of session end and termination: out-of-code detection, the graceful-end condition, reset on every exiting path of Flush, restart point injection, TERMINATE checked before a run is classified, client flags kept. One known finding (pre-VM hook clears TERMINATE). Outputs over histories are not decided."),
  'C10':("per-backend CFG cuts (CheckPut gate, fallback lookup before not-found), store value classes for seal/lock, key-derivation flow to ToKey, constant masks vs DATATYPE table",
-        "Decides the agreement clauses for each db.Db implementation of the library on every path: lock refusal before any mutation, seal monotone, one key derivation with default-language fallback, recognisable not-found, documented type predicates, resource refuses unlocked stores, context setters always take effect. Map semantics over operation histories and listing are not decided."),
+        "Decides the agreement clauses for each db.Db implementation of the library on every path: lock refusal before any mutation, seal monotone, one key derivation with default-language fallback, recognisable not-found, documented type predicates, resource refuses unlocked stores, context setters always take effect. A listing leaves the handle's selections alone (one defect found by this clause and repaired). Map semantics over operation histories and the contents of a listing are not decided."),
  'C11':("backward value flow from storage primitives to LookupKey fields (re-slicing, non-injective transformations), separator and path hygiene checks",
         "Decides structural necessary conditions of an injective key encoding: the type byte is never stripped, keys always come from ToKey, only injective transformations lie between ToKey and the file name, setters always take effect. Seven known findings (legacy fallback name, unsanitised separator, raw key joined to the directory) are reported as such. Injectivity over all strings is not decided."),
  'C12':("protocol conformance of the Put path (allowed file operations, argument flow of Rename, ordering cuts), who-may-rename, IsNotFound guard before the fallback Save",
@@ -33,7 +33,7 @@ CLAIMED={
  'C03':("CFG cuts on the INCMP handler (gates, deciding comparison, IndexError edge), who-may-reset, value identity of the recorded input",
         "Decides the gating clauses of input routing on every path: match recorded before the move, INMATCH only cleared on resume, the move only behind selector==input or the wildcard, fallthrough to the catch node with the invalid-input message, refused 'previous' counts as no match, the recorded input is the client's bytes. One known finding (second match before the next HALT, pinned by TestRunReturn). Transcript equivalence with a reference router is not decided."),
  'C07':("field read/write effect sets over the CHA-reachable request path, automatic config/state classification of renderer fields, forward must-write analysis with callee summaries over the resume block",
-        "Decides that nothing outside the persisted snapshot carries information across a request boundary: every live State/Cache field is in the CBOR snapshot (or in a checked exception table), and every request-state field of the unpersisted renderer objects that is read on the run/render path is re-initialised on every path through the resume block. Output equality for all programs additionally needs deterministic external code and is not decided."),
+        "Decides that nothing outside the persisted snapshot carries information across a request boundary: every live State/Cache field is in the CBOR snapshot (or in a checked exception table), and every request-state field of the unpersisted renderer objects that is read on the run/render path is re-initialised on every path through the resume block. Output equality for all programs additionally needs deterministic external code and is not decided. One known finding (the pre-VM hook's Down/Up clear the page index at every engine initialisation)."),
  'C08':("classification of CHA-reachable explicit panics, Down/Push-Up/Pop pairing, zone bounds proofs of the page-cursor/menu/input-validation functions, BrowseError handling, cache accounting rules, range proofs of every lossy integer narrowing on the request path",
         "Decides the named crash and consistency mechanisms: reachable explicit panics are classified (a new one is reported), stack and cache move in lockstep on every path, browsing out of range is an error (bounds proved), input validation cannot index out of range, accounting rules hold. Implicit panics in the rest of the reachable code are not decided. One known finding (CROAK)."),
  'C04':("dispatch-table extraction, per-method store value classes, who-may-write, must-pass-through on the CFG",
